@@ -16,6 +16,15 @@ that the Proc model is stated over, rewritten into lean/YashModel/Generated/Proc
                                to a child that is sent a signal it neither traps nor ignores, and why SIGCHLD itself is
                                discarded when the parent has no handler installed
 
+  WaitCore :
+    * the shape of `wait_for_any_job_or_trap` (yash-builtin/src/wait/core.rs), which `WaitTrap.lean` `tparentStep`
+      transcribes: `enableBeforeLoop` (the SIGCHLD handler is installed before the `loop`), `waitTarget` (`Pid::ALL`),
+      and per arm of the `match …wait(…)` the classified statements in source order — `okNoneArm` =
+      ["wait_for_signals", "sigint_default_interrupt", "run_first_trap_return"] (then fall through to the next
+      iteration), `okSomeArm` = ["update_status", "return_ok"], `echildArm`, `otherErrArm`.  Arms in any order,
+      any variable names, either order of the two conjuncts of the SIGINT test; a statement that is none of these
+      (a `continue`, a test of another signal, a second `wait`) is a loud failure.
+
 Values go through a small constant-expression evaluator (decimal / hex / octal / binary literals with `_` and type
 suffixes, wrappers `Fd(…)` / `ExitStatus(…)` / `Self(…)`, `as T` casts, `+ - * / % << >> | &`, parentheses,
 references to other `const` items of the same file or impl, `Self::X` / `Fd::X` / `ExitStatus::X`), so `Fd(1)`,
@@ -221,4 +230,182 @@ def proc_consts(x):
     x.write("ProcConsts", body)
 
 
-TABLES = {"ProcConsts": proc_consts}
+CORE = "yash-builtin/src/wait/core.rs"
+
+
+def _split_arms(arms):
+    """match arms at top level: `pat => expr,` or `pat => { … }` (no comma needed)"""
+    parts, depth, cur = [], 0, ""
+    for c in arms:
+        if c in "([{":
+            depth += 1
+        elif c in ")]}":
+            depth -= 1
+        if c == "," and depth == 0:
+            parts.append(cur)
+            cur = ""
+        elif c == "}" and depth == 0 and "=>" in cur and cur.split("=>", 1)[1].strip().startswith("{"):
+            parts.append(cur + c)
+            cur = ""
+        else:
+            cur += c
+    if cur.strip():
+        parts.append(cur)
+    return [p.strip() for p in parts if p.strip()]
+
+
+def _split_stmts(block):
+    """top-level statements of a block: ended by `;` at depth 0, or by the `}` of a block statement (if/for/while/loop)"""
+    out, depth, cur = [], 0, ""
+    for c in block:
+        if c in "([{":
+            depth += 1
+        elif c in ")]}":
+            depth -= 1
+        cur += c
+        if depth == 0 and (c == ";" or (c == "}" and re.match(r"\s*(if|for|while|loop|match)\b", cur))):
+            out.append(cur.strip())
+            cur = ""
+    if cur.strip():
+        out.append(cur.strip())
+    return [" ".join(t.split()) for t in out]
+
+
+def _arm_body(rhs):
+    rhs = rhs.strip()
+    if rhs.startswith("{") and rhs.endswith("}"):
+        return rhs[1:-1]
+    return rhs
+
+
+def wait_core(x):
+    src = _strip_comments(x.read(CORE))
+    where = f"{CORE}: wait_for_any_job_or_trap"
+    body = x.item_body(src, r"\bfn\s+wait_for_any_job_or_trap\b[^{]*", "fn wait_for_any_job_or_trap")
+    loops = [m.start() for m in re.finditer(r"\bloop\s*\{", body)]
+    enables = [m.start() for m in re.finditer(r"\benable_internal_disposition_for_sigchld\s*\(", body)]
+    if len(loops) != 1 or len(enables) != 1:
+        x.fail(f"{where}: expected one `loop` and one `enable_internal_disposition_for_sigchld` ({len(loops)}, {len(enables)})")
+    enable_first = enables[0] < loops[0]
+    tail = body[enables[0]:loops[0]] if enable_first else ""
+    if enable_first and not re.search(r"\.await\s*\?", tail.split(";", 1)[0]):
+        x.fail(f"{where}: the result of enable_internal_disposition_for_sigchld is not awaited and propagated with `?`")
+    loop_body = x.item_body(body[loops[0]:], r"loop\s*", "loop of wait_for_any_job_or_trap")
+    waits = re.findall(r"\.\s*wait\s*\(\s*([A-Za-z_:]+(?:\([^()]*\))?)\s*\)", loop_body)
+    if len(waits) != 1:
+        x.fail(f"{where}: expected exactly one `.wait(…)` in the loop, found {len(waits)}")
+    target = waits[0].replace(" ", "")
+    if target in ("Pid::ALL", "Pid(-1)"):
+        target = "ALL"
+    else:
+        x.fail(f"{where}: `.wait({waits[0]})`: target not understood (expected Pid::ALL)")
+    mm = re.search(r"\bmatch\b", loop_body)
+    if not mm or len(re.findall(r"\bmatch\b", loop_body.split("=>", 1)[0])) != 1:
+        x.fail(f"{where}: the loop is not one `match` on the result of `wait` (shape not understood)")
+    before = loop_body[:mm.start()].strip()
+    if before and not re.fullmatch(r"let\s+[a-z_][a-z_0-9]*\s*=\s*[^;]*\.\s*wait\s*\([^;]*;", before):
+        x.fail(f"{where}: statement before the `match` of the loop not understood: `{before}`")
+    arms_text = x.item_body(loop_body[mm.start():], r"match\b[^{]*", "match of wait_for_any_job_or_trap")
+    after = loop_body[mm.start():]
+    # nothing may follow the match inside the loop
+    end = after.index(arms_text) + len(arms_text) + 1
+    if after[end:].strip().strip(";").strip():
+        x.fail(f"{where}: statements after the `match` inside the loop: `{after[end:].strip()}`")
+    arms = {}
+    for part in _split_arms(arms_text):
+        if "=>" not in part:
+            x.fail(f"{where}: arm without `=>`: `{part}`")
+        pat, rhs = part.split("=>", 1)
+        p = pat.replace(" ", "")
+        if re.search(r"\bif\b", pat):
+            x.fail(f"{where}: guarded arm `{pat.strip()}` (shape not understood)")
+        if p == "Ok(None)":
+            key = "none"
+        elif re.fullmatch(r"Ok\(Some\((\([a-z_]+,[a-z_]+\)|[a-z_]+|\.\.)\)\)", p):
+            key = "some"
+        elif re.fullmatch(r"Err\((?:[A-Za-z_]+::)*ECHILD\)", p):
+            key = "echild"
+        elif re.fullmatch(r"Err\([a-z_][a-z_0-9]*\)", p):
+            key = "err"
+        else:
+            x.fail(f"{where}: arm pattern `{pat.strip()}` not understood")
+        if key in arms:
+            x.fail(f"{where}: two arms for {key}")
+        arms[key] = _split_stmts(_arm_body(rhs))
+    for need in ("none", "some", "echild", "err"):
+        if need not in arms:
+            x.fail(f"{where}: no arm for {need}")
+
+    def classify_none(stmts):
+        out, sigvar = [], None
+        for st in stmts:
+            m = re.fullmatch(r"let ([a-z_][a-z_0-9]*) = env\s*\.\s*wait_for_signals\s*\(\s*\)\s*\.\s*await\s*;", st)
+            if m:
+                sigvar = m.group(1)
+                out.append("wait_for_signals")
+                continue
+            if sigvar is None:
+                x.fail(f"{where}: Ok(None) arm: `{st}` comes before `let … = env.wait_for_signals().await`")
+            if re.search(r"\b(continue|break)\b", st):
+                x.fail(f"{where}: Ok(None) arm: `{st}` leaves the iteration early (shape not understood: the model runs the "
+                       "trap of the first caught signal that has one before polling again)")
+            v = re.escape(sigvar)
+            if st.startswith("if "):
+                cond = st[3:st.index("{")]
+                conj = sorted(c.strip() for c in cond.split("&&"))
+                want = sorted([f"{sigvar}.contains(&S::SIGINT)", "env.sigint_has_default_action()"])
+                if [c.replace(" ", "") for c in conj] != [w.replace(" ", "") for w in want]:
+                    x.fail(f"{where}: Ok(None) arm: condition `{cond.strip()}` not understood")
+                if not re.search(r"return Err\s*\(\s*(?:Error::)?Trapped\s*\(\s*S::SIGINT", st):
+                    x.fail(f"{where}: Ok(None) arm: the SIGINT test does not `return Err(Error::Trapped(S::SIGINT, …))`: `{st}`")
+                out.append("sigint_default_interrupt")
+                continue
+            m = re.match(r"for ([a-z_][a-z_0-9]*) in " + v + r"\s*\.\s*iter\s*\(\s*\)(?:\s*\.\s*(?:cloned|copied)\s*\(\s*\))?\s*\{", st)
+            if m:
+                sv = re.escape(m.group(1))
+                if not re.search(r"if let Some\s*\(\s*([a-z_]+)\s*\) = run_trap_if_caught\s*\(\s*env\s*,\s*" + sv +
+                                 r"\s*\)\s*\.\s*await\s*\{\s*return Err\s*\(\s*(?:Error::)?Trapped\s*\(\s*" + sv + r"\s*,\s*\1\s*\)\s*\)\s*;\s*\}", st):
+                    x.fail(f"{where}: Ok(None) arm: the loop over the caught signals is not "
+                           "`if let Some(r) = run_trap_if_caught(env, s).await { return Err(Error::Trapped(s, r)); }`: `" + st + "`")
+                out.append("run_first_trap_return")
+                continue
+            x.fail(f"{where}: Ok(None) arm: cannot classify `{st}`")
+        return out
+
+    def classify_simple(stmts, table, arm):
+        out = []
+        for st in stmts:
+            t = st.rstrip(";").strip()
+            for rx, name in table:
+                if re.fullmatch(rx, t):
+                    out.append(name)
+                    break
+            else:
+                x.fail(f"{where}: {arm} arm: cannot classify `{st}`")
+        return out
+
+    none_arm = classify_none(arms["none"])
+    some_arm = classify_simple(arms["some"], [
+        (r"env\s*\.\s*jobs\s*\.\s*update_status\s*\(\s*[a-z_]+\s*,\s*[a-z_]+\s*\)", "update_status"),
+        (r"return Ok\s*\(\s*\(\s*\)\s*\)", "return_ok")], "Ok(Some)")
+    echild_arm = classify_simple(arms["echild"], [
+        (r"return Err\s*\(\s*(?:Error::)?NothingToWait\s*\)", "nothing_to_wait")], "Err(ECHILD)")
+    err_arm = classify_simple(arms["err"], [
+        (r"return Err\s*\(\s*(?:Error::)?SystemError\s*\(\s*[a-z_]+\s*\)\s*\)", "system_error"),
+        (r"return Err\s*\(\s*[a-z_]+\s*\.\s*into\s*\(\s*\)\s*\)", "system_error")], "Err(other)")
+
+    def lst(v):
+        return "[" + ", ".join(x.lean_str(t) for t in v) + "]"
+    body = (f"/-- `env.traps.enable_internal_disposition_for_sigchld(&env.system).await?` precedes the `loop` of\n"
+            f"    `wait_for_any_job_or_trap` ({CORE}) -/\n"
+            f"def enableBeforeLoop : Bool := {'true' if enable_first else 'false'}\n\n"
+            f"/-- the argument of the one `system.wait(…)` of the loop -/\ndef waitTarget : String := {x.lean_str(target)}\n\n"
+            f"/-- statements of the `Ok(None)` arm in source order (then the next iteration polls again) -/\n"
+            f"def okNoneArm : List String := {lst(none_arm)}\n\n"
+            f"/-- statements of the `Ok(Some((pid, state)))` arm -/\ndef okSomeArm : List String := {lst(some_arm)}\n\n"
+            f"/-- the `Err(Errno::ECHILD)` arm -/\ndef echildArm : List String := {lst(echild_arm)}\n\n"
+            f"/-- the arm for any other error -/\ndef otherErrArm : List String := {lst(err_arm)}\n")
+    x.write("WaitCore", body)
+
+
+TABLES = {"ProcConsts": proc_consts, "WaitCore": wait_core}
